@@ -155,6 +155,19 @@ def parse_ast(path):
             i += 1
             if name not in inv.classes:
                 inv.classes[name] = parse_class(name, m2.group(3) or '', body, ind + 4)
+                # nested enumerations (ConstitutiveModel::Type)
+                k = 0
+                while k < len(body):
+                    me = ENUM_RE.match(body[k])
+                    k += 1
+                    if me:
+                        ens = []
+                        while k < len(body) and not re.match(r'^\s*\};?$', body[k]):
+                            e = body[k].strip().rstrip(',')
+                            if e:
+                                ens.append(re.sub(r'\s*=.*$', '', e))
+                            k += 1
+                        inv.enums[name + '::' + me.group(2)] = {'underlying': me.group(3), 'enumerators': ens}
             continue
         # free operators at namespace scope
         m3 = re.match(r'^\s*template <typename NumericType> inline constexpr (.+?) (operator\S+?)\((.*)\)( noexcept)?( \{|;)?$', l)
